@@ -33,6 +33,10 @@ COVERAGE TABLE (clause / dimension -> what explores it -> single point or absent
                                   methods (the linearizability spec says so since a recorded history showed it).
   no race                         Go race detector on everything above; lockset + lost-update invariants on the extracted programs
                                   (predictions).  A race report must have a frame in generated code.
+  record vs. user function        "recorded before Func is entered", per method shape (void / with results, every control path): order
+                                  configuration of the model on the extracted paths with the function entry kept (prediction);
+                                  probe round on every matryer mock: AFunc itself and another goroutine (while AFunc blocks) read
+                                  ACalls() and must find the call in progress; every third AFunc panics and the call must stay.
   no lost/duplicated/torn record  count and multiset (no reset), per-goroutine order, every field of a record decodes to one (g,k)
   mocked methods                  arity 0-3, variadic, sole `...interface{}`, 0-2 results, non-ASCII/initialism names, generic K9[T].
                                   Single point: two methods per mock in the model alphabet.
@@ -418,9 +422,10 @@ def run(ctx):
     p0.update(json.loads(fl[0][0]))
     broken = dict(p0)
     broken["call:A"] = [[x for x in p if x[0] not in LOCKOPS] for p in p0["call:A"]]
-    # ... and with the function entered before the append, the order configuration MUST fail
-    late = dict(p0)
-    late["fw:call:A"] = [[x for x in p if x[0] == "forward"] + [x for x in p if x[0] != "forward"] for p in p0["fw:call:A"]]
+    # ... and a call that enters the function before it stores its record MUST fail the order configuration
+    # (synthetic path: the self-test must not depend on what the extracted code looks like)
+    late = {"fw:call:A": [[["forward", "", "AFunc", ""], ["lock", "lockA", "", ""], ["read", "", "calls.A", ""],
+                           ["write", "", "calls.A", "append"], ["unlock", "lockA", "", ""]]]}
     jobs.append(("selftest-late-record", "MatryerConcLate", run_module("MatryerConcLate", late), order_cfg()))
     jobs.append(("selftest-nolock", "MatryerConcBroken", run_module("MatryerConcBroken", broken), conc_cfg(2, 2, "AlphaOne")))
     results = {}
